@@ -7,7 +7,7 @@ Tokens: a rational is `n` or `n/d` (d > 0); a tolerance is a rational, `-inf` or
   valid <D> <rel> <tot>                                  → ok | TypeError | ValueError:<field>
   value <tot> <rel> <s…>                                 → kept values, comma separated (`-` if none)
   sumidx <tot> <norming> <s…>                            → the truncation index
-  trunc <D> <rel> <tot> <renorm> <sum> <sumrenorm> <s…>  → `<kept>;<discarded>` (kept may be `nan*k`),
+  trunc <D> <rel> <tot> <renorm> <sum> <sumrenorm> <s…>  → `<kept>;<discarded>`,
                                                            `empty` for the ValueError on an empty vector,
                                                            or the validation error of the parameters
 -/
@@ -48,10 +48,6 @@ def showValidation : Validation → String
   | .typeError => "TypeError"
   | .valueError f => s!"ValueError:{f}"
 
-def showKept : Kept → String
-  | .vals l => showRats l
-  | .nans n => s!"nan*{n}"
-
 def handle (args : List String) : String :=
   match args with
   | ["valid", d, rel, tot] =>
@@ -79,7 +75,7 @@ def handle (args : List String) : String :=
                             sumTrunc := sumT, sumRenorm := sumR }
         match truncate s p with
         | none => "empty"
-        | some (kept, disc) => s!"{showKept kept};{showRats disc}"
+        | some (kept, disc) => s!"{showRats kept};{showRats disc}"
       | v => showValidation v
     | _, _, _, _, _, _, _ => "bad-op"
   | _ => "bad-op"
